@@ -396,8 +396,15 @@ class BVReduceBW:
         bws = sorted(set([bw - 1, bw // 2, 2, 1]))
         for b in bws:
             if 0 < b < bw:
-                varname = '_{}'.format(node[1])
-                if get_sort(Node(varname)) is not None:
+                # |v| and v are the same symbol
+                if is_piped_symbol(node[1]):
+                    varname = '|_{}'.format(node[1].data[1:])
+                    alias = '_{}'.format(node[1].data[1:-1])
+                else:
+                    varname = '_{}'.format(node[1])
+                    alias = '|_{}|'.format(node[1])
+                if get_sort(Node(varname)) is not None \
+                   or get_sort(Node(alias)) is not None:
                     # the name of the new variable is already in use
                     return
                 var = Node('declare-const', varname, Node('_', 'BitVec', b))
